@@ -202,6 +202,18 @@ func bodyC16(s *Sim) {
 		all()
 		s.Advance(pick(s.rngEnv, time.Second, 11*time.Second, 61*time.Second))
 	}
+	// the manifest is applied again (the strategy as authored replaces the defaulted one) and the
+	// replica sets are reconciled before the ExtendedDaemonSet is defaulted again
+	reapply := func(wait time.Duration) {
+		s.userReapply(def.NS, def.Name)
+		s.Advance(wait)
+		for _, r := range s.Store.ERSs() {
+			s.RunTask(CtrlERS, types.NamespacedName{Namespace: r.Namespace, Name: r.Name})
+		}
+		s.RunTask(CtrlPodTpl, key)
+		all()
+	}
+	reapply(time.Second)
 	// template change: canary (or rolling update) to its end
 	s.userSetTemplate(def.NS, def.Name, "B")
 	for i := 0; i < 3; i++ {
@@ -216,6 +228,7 @@ func bodyC16(s *Sim) {
 		}
 	}
 	all()
+	reapply(pick(s.rngEnv, time.Second, 61*time.Second))
 	s.Advance(3 * time.Minute)
 	all()
 	s.Advance(11 * time.Minute)
@@ -235,5 +248,5 @@ func init() {
 	lat := c16Lattice()
 	register(&Profile{Name: "C16", Decide: []string{"C16"}, Quick: len(lat) * c16Bases, Thorough: len(lat)*c16Bases + len(lat)*len(lat)*c16Bases, Gen: genC16, Body: bodyC16,
 		NonVacuous: []string{"C16.defaulting", "C16.invalid-spec", "C12.write"}, Chunk: 20,
-		Rule: fmt.Sprintf("Boundary lattice of every strategy field (%d points: absent, 0, negative, 1, huge, percent, 0%%, 200%%, malformed percent; durations absent/0/negative/positive; booleans; validation mode unset/auto/manual; canary block absent; template name set) applied to 5 base configurations (all defaults, explicit auto canary, manual validation, controller-level default manual, fully spelled-out spec), both node-assignment modes; quick enumerates every single-field point, thorough also every pair; each spec goes through a scripted history (deploy across slow-start slots, template change, canary with a restarting pod, time-out, validation) on the fake clock with every reconcile recovered and the worker process watched for crashes of child goroutines.", len(lat))})
+		Rule: fmt.Sprintf("Boundary lattice of every strategy field (%d points: absent, 0, negative, 1, huge, percent, 0%%, 200%%, malformed percent; durations absent/0/negative/positive; booleans; validation mode unset/auto/manual; canary block absent; template name set) applied to 5 base configurations (all defaults, explicit auto canary, manual validation, controller-level default manual, fully spelled-out spec), both node-assignment modes; quick enumerates every single-field point, thorough also every pair; each spec goes through a scripted history (deploy across slow-start slots, template change, the manifest applied again with the replica sets reconciled before the re-defaulting, canary with a restarting pod, time-out, validation) on the fake clock with every reconcile recovered and the worker process watched for crashes of child goroutines.", len(lat))})
 }
